@@ -68,7 +68,7 @@ def run(seed, tier, lean) -> Result:
                       'over random languages; after every step the real model is checked against the abstract reference (unique ids/names, '
                       'reservations, back-references, neighbours, entry points, atomic errors) and compared with the Lean state machine; '
                       'non-trivial = a removal followed by a later addition, or a rejected operation')
-    n = 300 if tier == 'quick' else 15000
+    n = 300 if tier == 'quick' else 1800
     cases = []
     for i in range(n):
         r = random.Random(rnd.getrandbits(48))
